@@ -42,14 +42,23 @@ def _targets(t, out):
 
 def def_name_pos(lines, node, kw):
     """position of the identifier after `def` / `class` (None if it cannot be located on the keyword's line)"""
-    line = lines[node.lineno - 1]
-    m = re.compile(r'(async\s+)?%s\s+' % kw).match(line, node.col_offset)
+    # ast columns are UTF-8 byte offsets: work on the encoded line
+    line = lines[node.lineno - 1].encode('utf-8')
+    m = re.compile((r'(async\s+)?%s\s+' % kw).encode()).match(line, node.col_offset)
     if not m:
         return None
     col = m.end()
-    if line[col:col + len(node.name)] != node.name:
+    nb = node.name.encode('utf-8')
+    if line[col:col + len(nb)] != nb:
         return None
     return (node.lineno, col)
+
+
+def _plines(src):
+    out = re.split(r'\r\n|\r|\n', src)
+    if len(out) > 1 and not out[-1]:
+        out.pop()
+    return out
 
 
 def alias_pos(lines, alias, bound):
@@ -57,15 +66,16 @@ def alias_pos(lines, alias, bound):
         return (alias.lineno, alias.col_offset)
     # asname: last identifier of the alias source range
     l, c = alias.end_lineno, alias.end_col_offset
-    line = lines[l - 1]
-    if line[c - len(bound):c] == bound:
-        return (l, c - len(bound))
+    line = lines[l - 1].encode('utf-8')         # byte offsets, as in ast
+    nb = bound.encode('utf-8')
+    if line[c - len(nb):c] == nb:
+        return (l, c - len(nb))
     return None
 
 
 class Collector(ast.NodeVisitor):
     def __init__(self, src):
-        self.lines = src.splitlines()
+        self.lines = _plines(src)
         self.bindings = []
         self.stack = [('module', None, set(), set())]     # (kind, node, globals, nonlocals)
         self.uncertain = set()                              # names whose classification the statement leaves open
